@@ -6,6 +6,13 @@ The full order-independence statement of the property excludes only root paths o
 literal/variable shape; the proof needs that no two *matching* roots score equally
 (`scoresSeparate`), which is strictly stronger: the gap is finding F05 (ten variables score like
 one literal), recorded below with a `decide`d witness.
+
+Since fix 19aa57d `computeWebserviceScore` evaluates the expression of a `{name:regex}` root token:
+`Curly.wsScoreE E qs toks` (`.no` / `.yes score` / `.panic`) is the loop, `Curly.wsScore qs toks` its
+arithmetic.  A claimed root (`.yes sc`) has the arithmetic score `sc` (`C03_claimed_score`), so the
+ranking facts are stated for both; `C03_best_service` speaks about the roots that claim the request,
+and order independence is proved under separation of the CLAIMED scores
+(`C03_curly_order_claimed_partial`), of which the `scoresSeparateB` form is a corollary.
 -/
 import Restful.Lemmas.Order
 import Restful.Lemmas.OrderJsr
@@ -18,23 +25,52 @@ variable (E : ReEnv)
 theorem C03_curly_key (ts' ts : List TTok) (h : Spec.moreSpecific ts' ts = true) :
     staticCount ts' > staticCount ts := Restful.C03_curly_key ts' ts h
 
-/-- service level: a literal root token beats a variable at the same position -/
+/-- service level, the arithmetic of the score: a literal root token beats a variable at the same
+    position -/
 theorem C03_root_literal_beats_variable (qs a b : List Str) (hne : ∀ t ∈ a, t ≠ [])
     (h : Spec.rootMoreSpecific a b = true) (sa sb : Nat)
     (ha : Curly.wsScore qs a = some sa) (hb : Curly.wsScore qs b = some sb) : sa > sb :=
   Restful.C03_root_literal_beats_variable qs a b hne h sa sb ha hb
 
-/-- service level: a longer matching root beats its own proper prefix -/
+/-- service level, the arithmetic of the score: a longer matching root beats its own proper prefix -/
 theorem C03_root_longer_beats_prefix (qs a b : List Str) (hpre : b <+: a) (hne : b ≠ a) (sa sb : Nat)
     (ha : Curly.wsScore qs a = some sa) (hb : Curly.wsScore qs b = some sb) : sa > sb :=
   Restful.C03_root_longer_beats_prefix qs a b hpre hne sa sb ha hb
 
-/-- the service whose routes are consulted has the greatest score among all matching roots -/
+/-- the score `computeWebserviceScore` returns for a root that claims the request (expressions of
+    root variables satisfied: `.yes`) is the arithmetic score -/
+theorem C03_claimed_score (qs toks : List Str) (sc : Nat) (h : Curly.wsScoreE E qs toks = .yes sc) :
+    Curly.wsScore qs toks = some sc :=
+  Curly.wsScore_of_wsScoreE E h
+
+/-- service level, on the score the router computes (fix 19aa57d: root expressions are
+    evaluated): a literal root token beats a variable at the same position, whenever both roots
+    claim the request -/
+theorem C03_rootE_literal_beats_variable (qs a b : List Str) (hne : ∀ t ∈ a, t ≠ [])
+    (h : Spec.rootMoreSpecific a b = true) (sa sb : Nat)
+    (ha : Curly.wsScoreE E qs a = .yes sa) (hb : Curly.wsScoreE E qs b = .yes sb) : sa > sb :=
+  Restful.C03_rootE_literal_beats_variable E qs a b hne h sa sb ha hb
+
+/-- service level, on the score the router computes: a longer root beats its own proper prefix,
+    whenever both claim the request -/
+theorem C03_rootE_longer_beats_prefix (qs a b : List Str) (hpre : b <+: a) (hne : b ≠ a) (sa sb : Nat)
+    (ha : Curly.wsScoreE E qs a = .yes sa) (hb : Curly.wsScoreE E qs b = .yes sb) : sa > sb :=
+  Restful.C03_rootE_longer_beats_prefix E qs a b hpre hne sa sb ha hb
+
+/-- the service whose routes are consulted claims the request and has the greatest score among all
+    roots that claim it (a root whose expression is not satisfied does not compete any more) -/
 theorem C03_best_service (qs : List Str) (svcs : List Service) (s : Service) (sc : Nat)
-    (h : Curly.detectWebService qs svcs none = some (s, sc)) :
-    Curly.wsScore qs (tokenize s.rootPath) = some sc ∧
-    ∀ s' ∈ svcs, ∀ sc', Curly.wsScore qs (tokenize s'.rootPath) = some sc' → sc' ≤ sc :=
-  Curly.detectWebService_max qs svcs s sc h
+    (h : Curly.detectWebService E qs svcs none = some (some (s, sc))) :
+    s ∈ svcs ∧ Curly.wsScoreE E qs (tokenize s.rootPath) = .yes sc ∧
+    ∀ s' ∈ svcs, ∀ sc', Curly.wsScoreE E qs (tokenize s'.rootPath) = .yes sc' → sc' ≤ sc :=
+  ⟨Curly.detectWebService_mem_none E h, Curly.detectWebService_max E qs svcs s sc h⟩
+
+/-- no service is consulted exactly when no root claims the request -/
+theorem C03_no_service (qs : List Str) (svcs : List Service) :
+    Curly.detectWebService E qs svcs none = some none ↔
+      ∀ s ∈ svcs, Curly.wsScoreE E qs (tokenize s.rootPath) = .no := by
+  rw [Curly.detectWebService_none]
+  simp
 
 /-- the selected route is never less specific than another eligible route of its service -/
 theorem C03_curly_never_less_specific (cfg : Config) (hwf : cfg.wfTemplates = true) (hk : cfg.router = .curly)
@@ -54,7 +90,18 @@ Full statement (false on the current code, see `C03_F05_witness`):
 -/
 
 /-- registration order does not matter: for tables whose same-method routes have different paths,
-    and requests on which no two matching roots score equally -/
+    and requests on which no two roots that claim the request score equally -/
+theorem C03_curly_order_claimed_partial (cfg cfg' : Config) (hk : cfg.router = .curly) (hperm : Spec.CfgPerm cfg cfg')
+    (hd : Spec.distinctMethodPathB cfg = true) (req : Req) (hs : Curly.ScoresSeparateE E cfg req) :
+    Spec.sameOutcome (route E cfg req) (route E cfg' req) := by
+  have hk' : cfg'.router = .curly := by rw [← hperm.1]; exact hk
+  unfold route routeTagged
+  rw [hk, hk']
+  exact Restful.C03_curly_order_E E cfg cfg' hperm (Spec.distinctMethodPath_of_B hd) req hs
+
+/-- registration order does not matter: for tables whose same-method routes have different paths,
+    and requests on which no two matching roots score equally (the arithmetic of the score,
+    `Spec.scoresSeparateB`, as the driver evaluates it; implies the hypothesis of the theorem above) -/
 theorem C03_curly_order_partial (cfg cfg' : Config) (hk : cfg.router = .curly) (hperm : Spec.CfgPerm cfg cfg')
     (hd : Spec.distinctMethodPathB cfg = true) (req : Req) (hs : Spec.scoresSeparateB cfg req = true) :
     Spec.sameOutcome (route E cfg req) (route E cfg' req) := by
